@@ -6,9 +6,10 @@ from ..common import d42  # noqa: F401
 from d42 import fake, schema, substitute, validate
 
 MODULE = "D42.Props.C01"
-THEOREMS = []
+THEOREMS = ["gen_sound", "genScalar_sound", "randomStr_spec", "randomFloat_in_bounds", "gen_conforms",
+            "gen_dead_alternative_counterexample", "gen_ellipsis_len_counterexample"]
 FILES = ["D42/Model/Data.lean", "D42/Model/Float.lean", "D42/Model/Validate.lean", "D42/Model/Gen.lean",
-         "D42/Gen/Consts.lean", "D42/Props/C01.lean"]
+         "D42/Gen/Consts.lean", "D42/Spec/Conforms.lean", "D42/Props/C02.lean", "D42/Props/C09.lean", "D42/Props/C01.lean"]
 
 EVIDENCE = dict(
     level="proof",
